@@ -270,6 +270,11 @@ func c08Stress(seed uint64, tier string, o c08out) {
 	if tier == "thorough" {
 		rounds = 40
 	}
+	// deterministic scenarios first: overlapping calls on one logger, misbehaving neighbours in a destination list, and
+	// lists / groups the caller keeps and passes as values
+	overlapDelivery(o.violate)
+	flakyNeighbour(o.violate)
+	sharedValuesLeftAlone(o.violate)
 	for round := 0; round < rounds; round++ {
 		nLoggers := 1 + g.intn(8)
 		G := []int{2, 4, 8, 16, 32, 64}[g.intn(6)]
